@@ -12,6 +12,9 @@ REASONS = {
     "C14": r"supply-.*",
     "C01": r"value-.*",
     "C02": r"map-.*",
+    # the sync protocol seen at the write task: linked (implicitly, if need be) before the sync events, synced only
+    # after a request and inside a link
+    "C03": r"synced-.*|event-outside-link|linked-remote-.*",
 }
 
 
@@ -32,7 +35,8 @@ E2E_REASONS = {
     "C01": r"value-event-stale-or-reordered|value-stale-at-quiescence|value-event-on-map-lane",
     "C02": r"map-replica-diverged|map-event-on-other-lane",
     "C03": r"map-snapshot-inconsistent|value-snapshot-inconsistent|value-synced-without-value|"
-           r"sync-request-never-answered|synced-not-requested|map-update-lost-during-implicit-link-sync",
+           r"sync-request-never-answered|synced-not-requested|map-update-lost-during-implicit-link-sync|"
+           r"event-outside-link|synced-outside-link|linked-remote-never-told-linked",
     "C04": r"event-outside-link|unlinked-without-open-link|lane-not-found.*|linked-for-unknown-lane|"
            r"link-left-open-at-stop|fabricated-event-body|synced-outside-link|linked-remote-never-told-linked|"
            r"unexpected-frame-body|frame-decode-error|run-.*|unparsable.*",
